@@ -437,6 +437,10 @@ KEY_LAYOUTS = {
     'B': (0.25, [5, 7], [0.10, 0.16]),
     'C': (0.20, 4, 0.27),
     'D': (0.30, [3, 8], [0.12, 0.12]),
+    # segment counts that do not divide 360 / are prime (the angular pitch 360/n is not an integer number of degrees)
+    'G': (0.25, [7, 11], [0.12, 0.14]),
+    'H': (0.22, 13, 0.25),
+    'I': (0.20, [14, 17, 16], [0.09, 0.09, 0.09]),
     # absolute layouts, in samples: every shared radius is an exact integer multiple of dx, so with radial_gap == 0 samples sit
     # exactly ON a shared radius (on-axis samples and Pythagorean points (3,4), (6,8), (5,12), (9,12), (7,24), (15,20))
     'E': (10.0, [6, 6, 12], [5.0, 5.0, 10.0], 'abs'),      # radii 5, 10, 15, 25
@@ -1168,6 +1172,19 @@ def plan(tier, seed):
                    for s in range(3, 9) for n in grids]
     spid_cases = [{'n0': n[0], 'n1': n[1], 'dx': dx, 'vanes': v, 'rot': rot, 'rad': rad, 'cx': c[0], 'cy': c[1]}
                   for v in range(1, 7) for n in grids for dx in dxs for rot in (0, 30, 90, 45.5, -20, -100, 200, 400) for rad in (False, True) for c in offs]
+    # integer-count parameters beyond the small alphabets: every count up to 17, in particular those that do not divide 360
+    # (7, 11, 13, 14, 16, 17) and the primes; reduced geometric product
+    cnt_grids = [[48, 48], [49, 49], [48, 65]]
+    spid_cases += [{'n0': n[0], 'n1': n[1], 'dx': dx, 'vanes': v, 'rot': rot, 'rad': rad, 'cx': c[0], 'cy': c[1]}
+                   for v in range(7, 18) for n in cnt_grids for dx in dxs for rot in (0, 45.5, -20) for rad in (False, True) for c in offs[:2]]
+    poly_cases += [{'n0': n[0], 'n1': n[1], 'dx': dx, 'sides': sd, 'rot': rot, 'cx': c[0], 'cy': c[1]}
+                   for sd in range(9, 18) for n in cnt_grids for dx in dxs for rot in (0, 15, -20) for c in offs[:2]]
+    key_cases += [{'n0': n[0], 'n1': n[1], 'dx': dx, 'layout': lay, 'fill': 1.0, 'gap': g, 'agap': None, 'rot': rot}
+                  for lay in ('G', 'H', 'I') for n in cnt_grids + [[64, 64]] for dx in dxs for g in (0.0, 1.0) for rot in (None, 10, -10)]
+    kopd_cases += [{'n0': n, 'n1': n, 'dx': 1.0, 'layout': lay, 'fill': 1.0, 'gap': 1.0, 'agap': None, 'rot': None, 'basis': 'rt'}
+                   for lay in ('G', 'I') for n in (64, 65)]
+    large_cases += [{'n0': n, 'n1': n, 'dx': 1.0, 'rings': r, 'diam': d, 'gap': g, 'angle': a, 'exclude': e}
+                    for n, r, d in ([128, 4, 11.0], [129, 5, 9.0]) for g in (0.0, 1.0) for a in (90, 0) for e in ([], [ring_last(r - 1)])]
     fil_cases = [{'n0': n[0], 'n1': n[1], 'dx': dx, 'rot': rot, 'aspect': asp, 'fillet': f, 'cx': c[0], 'cy': c[1]}
                  for n in grids for dx in dxs for rot in (0, 30, 90) for asp in (1.0, 0.6) for f in (0.3, 1.0) for c in offs[:2]]
 
@@ -1183,7 +1200,7 @@ def plan(tier, seed):
         ScopeUnit('hex_large', large_cases, run_hex,
                   f'large-segment threshold alphabet (grid, rings, flat-to-flat samples) in {large} x dx {{1, 0.1}} x gap {{0, 1}} x both angles, rings 0 = centre segment alone: '
                   'same oracles as hex_tiling; exercises window sizes that scale with the segment (a window derived from the flat-to-flat half-width instead of the vertex radius '
-                  'only clips beyond ~16..30 samples); a few geometries only, not a closed product', reset=rs),
+                  'only clips beyond ~16..30 samples); plus rings 4 and 5 (61 / 91 segments) on 128 / 129 grids; a few geometries only, not a closed product', reset=rs),
         ScopeUnit('hex_opd', opd_cases, run_hex_opd,
                   'grids x dx x rings x gap {0, 3.3} x both angles x 4 exclusion sets x basis {Cartesian monomials, polar r^n cos/sin} x normalisation {default, explicit}: '
                   'the full operator matrix of compose_opd over the (segment, mode) basis: support of every column inside its own segment, piston column == segment indicator, '
@@ -1193,7 +1210,7 @@ def plan(tier, seed):
                   f'grids x dx x layouts {sorted(set(c["layout"] for c in key_cases))} (segments per ring / ring widths, scalar and per-ring forms) x fill {{fits, overflows the grid}} x radial gap {GAPS} x azimuthal gap '
                   'x rotation_per_ring {None, 0, 10, [0,17.5], 100, -10}: count, every segment raster == analytic annular sector outside the band, pairwise disjoint, amp inside the union and each amp '
                   'sample in exactly one segment, amp == union minus seam strips, areas within the boundary-pixel bound; plus absolute layouts E (radii 5,10,15,25 samples) and F (3,5,13) '
-                  'with radial_gap exactly 0 and dx in {1, 0.5}, where on-axis and Pythagorean samples lie exactly ON a shared radius: no sample may be owned twice (the band never applies to the count)', reset=rs),
+                  'with radial_gap exactly 0 and dx in {1, 0.5}, and layouts G/H/I with segment counts 7, 11, 13, 14, 16, 17 (pitch not a whole number of degrees), where on-axis and Pythagorean samples lie exactly ON a shared radius: no sample may be owned twice (the band never applies to the count)', reset=rs),
         ScopeUnit('keystone_opd', kopd_cases, run_keystone_opd,
                   'layouts A,B x grids x fill x gap x rotation x basis {polar, Cartesian}: operator matrix of compose_opd over (centre + segments, mode): confinement, piston, linearity, homogeneity over the scale alphabet {1e-3, 1e-9, 1e-12, -1e-9} and a mixed-scale array, repeatability', reset=rs),
         ScopeUnit('prim_circle', circ_cases, run_circle,
@@ -1205,9 +1222,9 @@ def plan(tier, seed):
                   f'rectangle (height None / 0.5 / 1.7 x width) and rotated_ellipse (minor = 1 / 0.6 / 0.25 x major) x angle {{0, 90, 45, 30, -17.5, 180}} x offsets x sorted sizes {RECT_S}: '
                   'membership, monotone growth, the symmetries of the rotated shape that map the grid to itself', reset=rs),
         ScopeUnit('prim_polygon', poly_cases, run_polygon,
-                  f'regular_polygon sides 3..8 x rotation {{0, 90, 15, 37.3, -20, 180}} x offsets x sorted radii {POLY_R} (plus the all-defaults call): half-plane membership outside the band, monotone growth, symmetry', reset=rs),
+                  f'regular_polygon sides 3..8 (and, on a reduced product, every count 9..17) x rotation {{0, 90, 15, 37.3, -20, 180}} x offsets x sorted radii {POLY_R} (plus the all-defaults call): half-plane membership outside the band, monotone growth, symmetry', reset=rs),
         ScopeUnit('prim_spider', spid_cases, run_spider,
-                  f'spider vanes 1..6 x rotation {{0, 30, 90, 45.5, -20, -100, 200, 400}} (each in the degrees and in the radians form, so negative and > 2 pi radian rotations are called directly) x offsets x sorted widths {SPID_W}: membership of the transmitting part, monotone shrinking, symmetry', reset=rs),
+                  f'spider vanes 1..6 (and, on a reduced product with rotation and off-centre cases, every count 7..17 -- includes all counts that do not divide 360) x rotation {{0, 30, 90, 45.5, -20, -100, 200, 400}} (each in the degrees and in the radians form, so negative and > 2 pi radian rotations are called directly) x offsets x sorted widths {SPID_W}: membership of the transmitting part, monotone shrinking, symmetry', reset=rs),
         ScopeUnit('prim_fillet', fil_cases, run_fillet,
                   'rectangle_with_corner_fillets x rotation {0, 30, 90} x aspect x fillet fraction x offsets x sorted sizes: rounded-rectangle membership with the chord sagitta added to the band at the corners, monotone growth', reset=rs),
     ]
